@@ -16,11 +16,14 @@ func init() {
 		g := g2cRng(r)
 		genConvertRequireness(g)
 		genMarkedDecisions(g, 1693)
+		genWriteEmpty(g, 1694)
 		base16(r, n)
 	}
 	base11 := generators["C11"]
 	generators["C11"] = func(r *rng, n int) {
-		genMarkedDecisions(g2cRng(r), 1193)
+		g := g2cRng(r)
+		genMarkedDecisions(g, 1193)
+		genWriteEmpty(g, 1194)
 		base11(r, n)
 	}
 }
@@ -70,5 +73,22 @@ func genMarkedDecisions(r *rng, id int) {
 				}
 			}
 		}
+	}
+}
+
+// 1694 (C16) / 1194 (C11): BinaryProtocol.WriteEmpty, the zero value written for an absent field, on every type byte 0..20 (+ a few
+// others) with key / element types over the valid type codes: bytes written and error, against gen/Gen_thriftempty.v
+func genWriteEmpty(r *rng, id int) {
+	codes := []int{2, 3, 4, 6, 8, 10, 11, 12, 13, 14, 15}
+	for typ := 0; typ <= 24; typ++ {
+		for _, k := range codes {
+			e := codes[r.intn(len(codes))]
+			outb, errd := thrift.VerifWriteEmpty(uint8(typ), uint8(k), uint8(e))
+			out.emit(id, fi(typ), fi(k), fi(e), fx(outb), fi(b2i(errd)))
+		}
+	}
+	for _, typ := range []int{127, 128, 255} {
+		outb, errd := thrift.VerifWriteEmpty(uint8(typ), 8, 11)
+		out.emit(id, fi(typ), fi(8), fi(11), fx(outb), fi(b2i(errd)))
 	}
 }
